@@ -9,6 +9,7 @@ import (
 	"fmt"
 	"io"
 	"math/rand"
+	"runtime"
 	"sort"
 	"strconv"
 	"strings"
@@ -20,6 +21,7 @@ import (
 	"google.golang.org/grpc"
 	"google.golang.org/grpc/codes"
 	"google.golang.org/grpc/metadata"
+	"google.golang.org/grpc/stats"
 	"google.golang.org/grpc/status"
 	"google.golang.org/grpc/verif/vlib"
 	"google.golang.org/grpc/verif/wire"
@@ -35,10 +37,44 @@ type astep struct {
 }
 
 type ascenario struct {
-	Seed  int64   `json:"seed"`
-	NRPC  int     `json:"nrpc"`
-	MCS   int     `json:"mcs"` // SETTINGS_MAX_CONCURRENT_STREAMS of every scripted connection, -1 = none
+	Seed int64 `json:"seed"`
+	NRPC int   `json:"nrpc"`
+	MCS  int   `json:"mcs"` // SETTINGS_MAX_CONCURRENT_STREAMS of every scripted connection, -1 = none
+	// Trap lists connection indices whose scripted server answers the first
+	// HEADERS it reads with GOAWAY(0) at once (from its reader goroutine): the
+	// GOAWAY races with whatever the client does next on that fresh stream.
+	Trap []int `json:"trap,omitempty"`
+	// Yield > 0 installs a stats.Handler whose OutHeader callback (run by the
+	// transport right after a new stream was registered and its HEADERS queued)
+	// yields the processor that many times: a collaborator we own that widens the
+	// window between creating a stream and the RPC's next operation on it.
+	Yield int     `json:"yield,omitempty"`
 	Steps []astep `json:"steps"`
+}
+
+// genClientTrap: RPCs are pushed off connection 0 by GOAWAY(0) and land, as
+// transparent retries, on trap connections.
+func genClientTrap(rng *rand.Rand) ascenario {
+	sc := ascenario{Seed: rng.Int63(), NRPC: 6 + rng.Intn(14), MCS: -1, Trap: vlib.Pick(rng, []int{1}, []int{1}, []int{1, 2}, []int{1, 3}), Yield: vlib.Pick(rng, 0, 50, 500, 2000)}
+	sc.Steps = append(sc.Steps, astep{K: "start", N: 2 + rng.Intn(5)}, astep{K: "wait"}, astep{K: "goaway", V: "zero"})
+	if rng.Intn(2) == 0 {
+		sc.Steps = append(sc.Steps, astep{K: "start", N: 1 + rng.Intn(3)})
+	}
+	sc.Steps = append(sc.Steps, astep{K: "wait"})
+	n := rng.Intn(10)
+	for k := 0; k < n; k++ {
+		switch r := rng.Intn(100); {
+		case r < 35:
+			sc.Steps = append(sc.Steps, astep{K: "start", N: 1 + rng.Intn(3)})
+		case r < 55:
+			sc.Steps = append(sc.Steps, astep{K: "goaway", V: vlib.Pick(rng, "zero", "touched", "mid", "max")})
+		case r < 75:
+			sc.Steps = append(sc.Steps, astep{K: "complete", N: 1 + rng.Intn(3)})
+		default:
+			sc.Steps = append(sc.Steps, astep{K: "wait"})
+		}
+	}
+	return sc
 }
 
 func genClient(rng *rand.Rand) ascenario {
@@ -62,6 +98,20 @@ func genClient(rng *rand.Rand) ascenario {
 		}
 	}
 	return sc
+}
+
+// yieldStats is a stats.Handler that does nothing but yield inside OutHeader.
+type yieldStats struct{ n int }
+
+func (yieldStats) TagRPC(ctx context.Context, _ *stats.RPCTagInfo) context.Context   { return ctx }
+func (yieldStats) TagConn(ctx context.Context, _ *stats.ConnTagInfo) context.Context { return ctx }
+func (yieldStats) HandleConn(context.Context, stats.ConnStats)                       {}
+func (y yieldStats) HandleRPC(_ context.Context, s stats.RPCStats) {
+	if _, ok := s.(*stats.OutHeader); ok {
+		for i := 0; i < y.n; i++ {
+			runtime.Gosched()
+		}
+	}
 }
 
 type attempt struct {
@@ -88,6 +138,8 @@ type aconn struct {
 	poisonKey  string
 	poisonWhy  string
 	hadInvalid bool // some invalid GOAWAY was written on this connection (its RPCs are judged leniently)
+	trap       bool // answers its first HEADERS with GOAWAY(0) from the reader goroutine
+	trapFired  bool // that GOAWAY has been seen in the log (main goroutine's view)
 	sealedAt   int  // log length at the first quiescent point after the first GOAWAY, -1 = not yet
 	ended      bool
 	endJudged  bool
@@ -110,7 +162,11 @@ type arpc struct {
 func runClient(sc ascenario) *result {
 	res := newResult()
 	v := res.v
-	fx, err := wire.NewClientFixture(grpc.WithIdleTimeout(0))
+	dopts := []grpc.DialOption{grpc.WithIdleTimeout(0)}
+	if sc.Yield > 0 {
+		dopts = append(dopts, grpc.WithStatsHandler(yieldStats{n: sc.Yield}))
+	}
+	fx, err := wire.NewClientFixture(dopts...)
 	if err != nil {
 		v("harness", "fixture: %v", err)
 		return res
@@ -133,13 +189,26 @@ func runClient(sc ascenario) *result {
 				if sc.MCS >= 0 {
 					init = append(init, http2.Setting{ID: http2.SettingMaxConcurrentStreams, Val: uint32(sc.MCS)})
 				}
+				mu.Lock()
+				ac := &aconn{idx: len(conns), peer: p, streams: map[uint32]*attempt{}, validN: -1, sealedAt: -1}
+				for _, t := range sc.Trap {
+					ac.trap = ac.trap || t == ac.idx
+				}
+				conns = append(conns, ac)
+				mu.Unlock()
+				if ac.trap {
+					fired := false // reader goroutine only
+					p.OnFrame = func(e wire.Entry) {
+						if e.Type == http2.FrameHeaders && !fired {
+							fired = true
+							p.WriteGoAway(0, http2.ErrCodeNo, "trap")
+						}
+					}
+				}
 				if err := p.Start(init...); err != nil {
 					c.Close()
 					continue
 				}
-				mu.Lock()
-				conns = append(conns, &aconn{idx: len(conns), peer: p, streams: map[uint32]*attempt{}, validN: -1, sealedAt: -1})
-				mu.Unlock()
 			case <-stop:
 				return
 			}
@@ -193,6 +262,7 @@ func runClient(sc ascenario) *result {
 		}()
 	}
 
+	variants := map[string]bool{}
 	snapshot := func() []*aconn { mu.Lock(); defer mu.Unlock(); return append([]*aconn(nil), conns...) }
 	// ingest feeds new log entries of every connection into the audit state.
 	ingest := func() {
@@ -223,6 +293,13 @@ func runClient(sc ascenario) *result {
 					if c.sealedAt >= 0 && e.Seq >= c.sealedAt {
 						v("new-stream-after-goaway", "conn %d: stream %d (rpc %d) was opened after the client had quiesced with GOAWAY(%v) received on that connection: %s", c.idx, e.Stream, rid, c.goaways, e)
 					}
+				case e.Dir == wire.Out && e.Type == http2.FrameGoAway && e.Debug == "trap":
+					c.trapFired = true
+					c.goaways = append(c.goaways, 0)
+					c.validN = 0
+					goawayInFlight = true
+					variants["trap"] = true
+					res.counters["goaways_sent"]++
 				case e.Dir == wire.In && e.Type == http2.FrameRSTStream:
 					if a := c.streams[e.Stream]; a != nil {
 						a.clientRST = true
@@ -257,6 +334,9 @@ func runClient(sc ascenario) *result {
 	}
 	openAccepted := func(c *aconn) []*attempt {
 		var out []*attempt
+		if c.trap && !c.trapFired {
+			return nil // its server has not decided yet what it accepts
+		}
 		for _, id := range c.order {
 			if a := c.streams[id]; !a.completed && !a.clientRST && accepted(c, id) {
 				out = append(out, a)
@@ -273,7 +353,6 @@ func runClient(sc ascenario) *result {
 		}
 		return nil
 	}
-	variants := map[string]bool{}
 	quiesce := func() {
 		synctest.Wait()
 		ingest()
@@ -310,8 +389,9 @@ func runClient(sc ascenario) *result {
 		return x
 	}
 	sendGoAway := func(variant string, rng *rand.Rand) {
+		ingest()
 		c := current()
-		if c == nil {
+		if c == nil || c.trap && !c.trapFired {
 			return
 		}
 		ingest() // use what the reader has logged so far (racing streams may be missing: that is the point)
@@ -534,7 +614,18 @@ func runClient(sc ascenario) *result {
 		switch r.code {
 		case codes.OK:
 			okCount++
+			answered := false
+			for _, a := range r.attempts {
+				answered = answered || a.touched
+			}
 			switch {
+			case len(r.msgs) == 0 && !answered && (len(r.attempts) != 1 ||
+				len(acc) == 0 && !(r.clean && r.attempts[0].conn == r.startConn)):
+				// Class of a known defect: the RPC was retried transparently (several
+				// attempts, or a single wire attempt that is not provably its first) and the
+				// new attempt died before the buffered SendMsg was replayed on it.
+				v("rpc-ok-although-never-answered-after-retry", "rpc %d finished OK (RecvMsg returned io.EOF) with no response message although no scripted server ever answered any of its streams: %s", r.idx, desc())
+				res.counters["rpcs_ok_without_any_answer"]++
 			case len(r.msgs) != 1:
 				v("response-count", "rpc %d finished OK with %d response messages %q, want exactly 1: %s", r.idx, len(r.msgs), r.msgs, desc())
 			default:
